@@ -66,6 +66,7 @@ def compare(m, label, route, model, other, inputs):
     if f1 != f2:
         diff = [k for k in f1 if f1[k] != f2[k]]
         why = cause(label)
+        route = 'json' if (why and route.startswith('json')) else route
         m.violation(f'{route}/facts-differ/{"+".join(diff)}' + (f'/{why}' if why else ''), grammar=label, original={k: f1[k] for k in diff}, reloaded={k: f2[k] for k in diff})
     nt = 0
     for t in inputs:
@@ -76,12 +77,13 @@ def compare(m, label, route, model, other, inputs):
             nt += 1
         if a[0] != b[0] or (a[0] == 'ok' and a[1] != b[1]):
             why = cause(label)
+            route = 'json' if (why and route.startswith('json')) else route
             m.violation(f'{route}/parser-differs' + (f'/{why}' if why else ''), grammar=label, input=t, original=a, reloaded=b)
             break
     m.add('nontrivial', nt)
 
 
-def check_text(m, label, text, inputs, routes=('json', 'pickle', 'source')):
+def check_text(m, label, text, inputs, routes=('json', 'pickle', 'source', 'pickle-after-parse', 'json-after-parse')):
     try:
         model = impl.compile_text(text)
     except Exception:  # noqa
@@ -94,10 +96,17 @@ def check_text(m, label, text, inputs, routes=('json', 'pickle', 'source')):
                 other = via_json(model)
             elif route == 'pickle':
                 other = via_pickle(model)
+            elif route in ('pickle-after-parse', 'json-after-parse'):
+                # a model that has been used (its optimised copy is cached on it) must serialise as well
+                used = impl.compile_text(text)
+                for t in inputs[:3]:
+                    impl.parse(used, t)
+                other = via_pickle(used) if route.startswith('pickle') else via_json(used)
             else:
                 other = via_source(text)
         except Exception as e:  # noqa
             why = cause(text)
+            route = 'json' if (why and route.startswith('json')) else route
             m.violation(f'{route}/reload-raises/{type(e).__name__}' + (f'/{why}' if why else f'/{shape(model)}'), grammar=label, error=str(e)[:200])
             continue
         m.add('evaluations')
@@ -123,7 +132,7 @@ def shape(model):
 
 def shard_features(m, items):
     for name, text in items:
-        check_text(m, text, text, c02.feature_inputs(name, 'quick')[:150])
+        check_text(m, text, text, c02.feature_inputs(name, 'thorough')[:400])
         m.sample({'grammar': text})
 
 
